@@ -57,7 +57,17 @@ struct MemW {
 		s->model.assign(n, 0xCD);
 		return s;
 	}
-	std::unique_ptr<State> clone(const State&) { return nullptr; }
+	std::unique_ptr<State> clone(const State& s)
+	{
+		// exact copy: same buffer bytes in a new exact-size block, same private cursor (set directly, not through Seek)
+		auto c = std::make_unique<State>();
+		c->buf.reset(new uint8_t[n ? n : 1]);
+		std::memcpy(c->buf.get(), s.buf.get(), n ? n : 1);
+		c->w = std::make_unique<Stream::MemoryWriter>(c->buf.get(), n);
+		c->w->offset = s.w->offset;
+		c->model = s.model; c->mpos = s.mpos;
+		return c;
+	}
 	std::string key(const State& s) { return peek::key(*s.w) + "|" + std::to_string(s.mpos) + "|" + std::string((const char*)s.buf.get(), n) + "|" + std::string(s.model.begin(), s.model.end()); }
 	std::string show(const Op& o) { return showW(o); }
 	std::vector<Op> enabled(const State& s)
@@ -70,9 +80,9 @@ struct MemW {
 		for (uint64_t m : { 0ull, 1ull, (unsigned long long)(n - s.mpos), (unsigned long long)(n - s.mpos + 1) }) { v.push_back({ wVec, m, 0 }); v.push_back({ wPrefU8, m, 1 }); }
 		return v;
 	}
-	bool apply(State& s, const Op& op, bool check, const std::string& hist)
+	bool apply(State& s, const Op& op, bool check, const mc::Hist& hist)
 	{
-		auto bad = [&](const std::string& c, const std::string& d) { if (check) ctx.violation("C14/MemoryWriter/" + c, "n=" + std::to_string(n) + " " + hist, d); return false; };
+		auto bad = [&](const std::string& c, const std::string& d) { if (check) ctx.violation("C14/MemoryWriter/" + c, "n=" + std::to_string(n) + " " + hist.str(), d); return false; };
 		uint64_t rem = n - s.mpos;
 		auto& w = *s.w;
 		std::vector<uint8_t> data;   // bytes the operation wants to append at mpos
@@ -148,7 +158,7 @@ struct DynW {
 	struct State { std::unique_ptr<Stream::DynamicMemoryWriter> w; std::vector<uint8_t> model; };
 	Ctx& ctx; std::size_t cap; bool prealloc;
 	std::unique_ptr<State> fresh() { auto s = std::make_unique<State>(); s->w = prealloc ? std::make_unique<Stream::DynamicMemoryWriter>(3) : std::make_unique<Stream::DynamicMemoryWriter>(); return s; }
-	std::unique_ptr<State> clone(const State&) { return nullptr; }
+	std::unique_ptr<State> clone(const State& s) { auto c = std::make_unique<State>(); c->w = std::make_unique<Stream::DynamicMemoryWriter>(*s.w); c->model = s.model; return c; }
 	std::string key(const State& s) { return peek::key(*s.w) + "|" + std::string(s.model.begin(), s.model.end()); }
 	std::string show(const Op& o) { return showW(o); }
 	std::vector<Op> enabled(const State& s)
@@ -162,9 +172,9 @@ struct DynW {
 		v.push_back({ wBegin }); v.push_back({ wEnd }); v.push_back({ wU16, 0, 1 }); v.push_back({ wPrefU8, 2, 0 });
 		return v;
 	}
-	bool apply(State& s, const Op& op, bool check, const std::string& hist)
+	bool apply(State& s, const Op& op, bool check, const mc::Hist& hist)
 	{
-		auto bad = [&](const std::string& c, const std::string& d) { if (check) ctx.violation("C14/DynamicMemoryWriter/" + c, hist, d); return false; };
+		auto bad = [&](const std::string& c, const std::string& d) { if (check) ctx.violation("C14/DynamicMemoryWriter/" + c, hist.str(), d); return false; };
 		auto& w = *s.w;
 		uint64_t len = s.model.size();
 		const uint64_t huge = uint64_t(1) << 31;   // beyond the environment's allocation cap: must be refused with an error, content unchanged (alphabet values are <= len+2 or >= 2^31)
@@ -421,7 +431,7 @@ void fileWriterMatrix(Ctx& ctx)
 
 // ------------------------------------------------------------------------------------------------
 const std::size_t memLensQuick[] = { 0, 1, 2, 4 };
-const std::size_t memLensThorough[] = { 0, 1, 2, 4, 5, 6 };
+const std::size_t memLensThorough[] = { 0, 1, 2, 3, 4, 5 };
 
 std::size_t nMem(Ctx& c) { return c.thorough ? 6 : 4; }
 
